@@ -193,3 +193,39 @@ class HistGen:
             elif self.allow_restart:
                 evs.append(ev_crash(-1 if r.random() < 0.5 else r.randrange(0, 60)))
         return evs
+
+
+# ---------------------------------------------------------------- direct updater calls
+def rbytes(r, n):
+    return bytes(r.randrange(256) for _ in range(n))
+
+
+def raw_history(r, layout, max_events=9, big=False):
+    """direct calls of the six updaters with arbitrary binary records (keys and names drawn
+    from small pools so that replace / delete hit existing entries)"""
+    keys = [rbytes(r, 8) for _ in range(4)]
+    dnames = [b"a", b"bb", b"a b", b"\x00\xff\n", rbytes(r, r.choice([1, 3, 40])), b"n" * 300]
+    cnames = [b"a", b"bb", b"r/s", b"%20x", b"z" * r.choice([1, 100, 1486, 1487])]
+    sizes = [1, 2, 4, 9, 23, 200, 1472] + ([65535, 65536] if big else [])
+    evs = []
+    for _ in range(r.randint(2, max_events)):
+        x = r.random()
+        if x < 0.25:
+            osc = None if r.random() < 0.6 else rbytes(r, r.choice([1, 5, 60]))
+            # the tuple must be a real address image: a fresh process builds a session from it
+            tup = layout.tuples[r.randrange(8)]
+            evs.append(ev_ua(r.choice(keys), tup, rbytes(r, r.choice(sizes)), osc))
+        elif x < 0.38:
+            evs.append(ev_ud(r.choice(keys)))
+        elif x < 0.58:
+            evs.append(ev_ut(r.choice(cnames), r.choice([0, 1, 2, 9, 10, 99, 0xffffff, 0xffffffff,
+                                                          r.randrange(1 << 24)])))
+        elif x < 0.66:
+            evs.append(ev_uc(r.choice(cnames)))
+        elif x < 0.86:
+            evs.append(ev_ur(r.choice(dnames), rbytes(r, r.choice(sizes))))
+        elif x < 0.95:
+            evs.append(ev_ux(r.choice(dnames + cnames[:3])))
+        else:
+            evs.append(ev_crash(-1 if r.random() < 0.5 else r.randrange(0, 40)))
+    return evs
